@@ -386,7 +386,8 @@ def conclude(mod, agg: Aggregate, tier: str, seed: int, reasons: t.List[str], wa
             "distinct_nontrivial": agg.distinct_nontrivial,
             "rule": mod.RULE,
             "samples": samples,
-            "exhaustive": bool(agg.exhaustive) and all(agg.exhaustive.values()),
+            # the run as a whole always mixes enumerated sub-spaces with sampled ones: never claimed exhaustive overall
+            "exhaustive": False,
             "exhaustive_subspaces": agg.exhaustive,
             "observed": observed,
             "verdict": verdict,
